@@ -534,7 +534,7 @@ fn one_session<C: Names + embedded_cli::service::Autocomplete + embedded_cli::se
             }
             // continue the model from what the editor holds
             m.line = rt.chars().collect();
-            m.cur = rc;
+            m.cur = rc.min(m.line.len());
             // a call that failed before anything was written did not get as far as recording the line
             #[cfg(feature = "history")]
             if enter_line.is_some() && delta.is_empty() {
@@ -564,10 +564,11 @@ fn one_session<C: Names + embedded_cli::service::Autocomplete + embedded_cli::se
         if (rt.clone(), rc) != after && (only.is_empty() || line_props.contains(&only)) {
             return Some(Cex { input: trace, expected: format!("line {:?} cursor {}", after.0, after.1), actual: format!("line {:?} cursor {}", rt, rc) });
         }
-        if (rt.clone(), rc) != after {
-            // a different class of violation than the one asked for: resynchronise and go on
+        if (rt.clone(), rc) != after && matches!(only, "C06" | "C13" | "C14" | "C15" | "C02" | "C03") {
+            // checks that compare the sink with the *actual* editor state follow the real editor; checks about what the
+            // line should be (C01, C05, C07, C08, C10, C11, C12, C17) keep the ideal model
             m.line = rt.chars().collect();
-            m.cur = rc;
+            m.cur = rc.min(m.line.len());
         }
         if let Some(l) = &enter_line {
             let toks = tokenize(l.as_bytes());
